@@ -269,50 +269,49 @@ def from_lib_p(x):
 
 
 # ---------------------------------------------------------------- strategies
+#
+# Choices are drawn as weighted integers inside composites: `one_of` over recursive strategies gave a badly
+# skewed distribution under Hypothesis' mutation heuristics (65 % of predicates were a bare NOT).
 
 
-def st_expr(cols, depth=2, need_ref=False, lit=st.integers(-3, 3)):
+@st.composite
+def st_expr(draw, cols, depth=2, need_ref=False, lit=st.integers(-3, 3)):
     """Expressions over `cols` (a collection of tags).  need_ref forces at least one column reference."""
     cols = sorted_tags(cols)
-    ref = st.sampled_from(cols).map(lambda t: ("ref", t)) if cols else None
-    lits = lit.map(lambda v: ("lit", v))
-    if ref is None:
-        if need_ref:
-            raise ValueError("need_ref with no columns")
-        base = lits
-    elif need_ref:
-        base = ref
-    else:
-        base = st.one_of(ref, ref, lits)
-    if depth == 0:
-        return base
-    sub = st_expr(cols, depth - 1, False, lit)
-    subr = st_expr(cols, depth - 1, need_ref, lit)
-    binary = st.tuples(st.sampled_from(["add", "sub", "mul"]), subr, sub) | (
-        st.tuples(st.sampled_from(["add", "sub", "mul"]), sub, subr)
-    )
-    return st.one_of(base, base, subr.map(lambda x: ("neg", x)), binary)
+    if need_ref and not cols:
+        raise ValueError("need_ref with no columns")
+    r = draw(st.integers(0, 99)) if depth > 0 else 0
+    if r < 45:
+        if cols and (need_ref or draw(st.integers(0, 2)) > 0):
+            return ("ref", draw(st.sampled_from(cols)))
+        return ("lit", draw(lit))
+    if r < 58:
+        return ("neg", draw(st_expr(cols, depth - 1, need_ref, lit)))
+    op = draw(st.sampled_from(["add", "sub", "mul"]))
+    a = draw(st_expr(cols, depth - 1, need_ref, lit))
+    b = draw(st_expr(cols, depth - 1, False, lit))
+    return (op, a, b) if draw(st.booleans()) else (op, b, a)
 
 
 def st_range(lo=-6, hi=6, steps=(1, 1, 2, 3)):
     return st.tuples(st.integers(lo, hi), st.integers(lo, hi), st.sampled_from(list(steps)))
 
 
-def st_pred(cols, depth=2, edepth=1, literals=True, ranges=st_range(), max_arity=3):
+@st.composite
+def st_pred(draw, cols, depth=2, edepth=1, literals=True, ranges=st_range(), max_arity=3):
+    r = draw(st.integers(0, 99))
+    if depth > 0 and r >= 45:
+        if r < 60:
+            return ("not", draw(st_pred(cols, depth - 1, edepth, literals, ranges, max_arity)))
+        n = draw(st.integers(0, max_arity))
+        subs = tuple(draw(st_pred(cols, depth - 1, edepth, literals, ranges, max_arity)) for _ in range(n))
+        return ("and" if r < 82 else "or", subs)
     e = st_expr(cols, edepth)
-    cmp_ = st.tuples(st.sampled_from(sorted(CMP)), e, e)
-    rng = st.tuples(st.just("inrange"), e, ranges)
-    seq = st.tuples(st.just("inseq"), e, st.lists(e, min_size=1, max_size=3).map(tuple))
-    alts = [cmp_, cmp_, cmp_, rng, seq]
-    if literals:
-        alts.append(st.booleans().map(lambda b: ("plit", b)))
-    base = st.one_of(*alts)
-    if depth == 0:
-        return base
-    sub = st_pred(cols, depth - 1, edepth, literals, ranges, max_arity)
-    return st.one_of(
-        base,
-        base,
-        sub.map(lambda p: ("not", p)),
-        st.tuples(st.sampled_from(["and", "or"]), st.lists(sub, min_size=0, max_size=max_arity).map(tuple)),
-    )
+    r = draw(st.integers(0, 99))
+    if r < 55:
+        return (draw(st.sampled_from(sorted(CMP))), draw(e), draw(e))
+    if r < 72:
+        return ("inrange", draw(e), draw(ranges))
+    if r < 90 or not literals:
+        return ("inseq", draw(e), tuple(draw(st.lists(e, min_size=1, max_size=3))))
+    return ("plit", draw(st.booleans()))
